@@ -836,6 +836,8 @@ def sched_coverage(pid, counters, distinct, samples, rule, res, nrep):
         "programs_explored": counters.get("programs", 0),
         "programs_exhaustive_to_bound": counters.get("programs_dfs_complete", 0),
         "programs_dfs_capped": counters.get("programs_dfs_capped", 0),
+        "program_classes": {k[9:]: v for k, v in counters.items() if k.startswith("programs_")
+                            and k not in ("programs_dfs_complete", "programs_dfs_capped")},
         "executions_by_generator": {k[11:]: v for k, v in counters.items() if k.startswith("executions.")},
         "executions_by_preemptions": {k[26:]: v for k, v in counters.items() if k.startswith("executions_by_preemptions.")},
         "executions_with_spin": counters.get("executions_with_spin", 0),
